@@ -241,6 +241,11 @@ class W2World(World):
             s = w2_ops.generate(self, rng, 'checkpoint', st)
             if s is not None:
                 return s
+        if self.prop in ('C08', 'C07') and not self.avoid and rng.random() < 0.06:
+            seq = w2_ops.twin_port_sequence(self, rng, st)
+            if seq:
+                self.queue = seq[1:]
+                return seq[0]
         if self.prop == 'C17' and self.checkpoints and rng.random() < 0.12:
             from . import w2_diff
             seq = w2_diff.single_edit_sequence(self, rng, st)
